@@ -19,7 +19,8 @@ REQUIRED_OBS = {"flattened": 100, "parallel": 30, "with_grid_level": 30, "cli_ru
 
 def cases(tier, seed):
     n = 60 if tier == "quick" else 1500
-    cs = workload.reader_population(n, seed + 800, ndims=(2,), max_levels=4, max_fields=5)
+    cs = workload.reader_population(n, seed + 800, ndims=(2,), max_levels=4, max_fields=5,
+                                    payloads=("random", "special", "nearconst"))
     for i, c in enumerate(cs):
         c["sel_seed"] = seed * 43 + i
     if tier == "thorough":
@@ -179,5 +180,10 @@ def run_case(case, work, rec):
             rec.ok(key, m.nlevels >= 2 and L >= 1 and nonsq)
     for k, v in contracts.COUNTS.items():
         rec.count("calls:" + k, v - n0.get(k, 0))
-    for f in contracts.FAILS[:5]:
-        rec.violation(f"contract on {f['contract']} broken at the source: {f['detail']}", witness=f)
+    # contracts hang on internal functions: a failure is a verdict only when the case also failed
+    # behaviourally (then it localises the defect); alone it is reported as an observation
+    if contracts.FAILS:
+        rec.count("contract_failures", len(contracts.FAILS))
+        if rec.violations:
+            for f in contracts.FAILS[:3]:
+                rec.violation(f"(diagnostic) contract on {f['contract']} broken at the source: {f['detail']}", witness=f)
